@@ -467,6 +467,23 @@ def fam_crash_conc(rnd, n):
     return res
 
 
+def fam_crash_slow(rnd, n):
+    """Crash points with several sequences in flight, and SLOW plugins in the resuming process (2-8 ms, earlier
+    sequences slower than later ones): whatever recovery resumes must have finished before the state machine
+    goes on, or the same sequence is executed twice at the same time."""
+    res = []
+    for i in range(n):
+        ns = rnd.choice([2, 3])
+        conc = rnd.choice([1, 2, 3])
+        sh = shape([blk([2] * ns, conc, rnd.choice([0, 1])), blk([1])], pg=rnd.choice([{}, {"deferred": 1}]))
+        lat = {}
+        for q in range(1, ns + 1):
+            for a in (1, 2):
+                lat["b1.s%d.a%d" % (q, a)] = [rnd.choice([6000, 8000]) if q == 1 else rnd.choice([2000, 4000])]
+        res.append(scn(sh, "free", {}, lat=lat, crash="sample", crashmax=10, fn=True, tag="crash-slow", waitms=8000))
+    return res
+
+
 def fam_crash_deferred(rnd, n):
     """Crash points around deferred checks that pass or fail, at plan and block level; the answer of a check may
     change across the restart (a deferred group that has run is not run again)."""
